@@ -94,4 +94,12 @@ export ReOrd (reLe0 reGt)
 instance : ReOrd CRat := ⟨fun a => a.re ≤ 0, fun a b => a.re > b.re⟩
 instance : ReOrd CFloat := ⟨fun a => a.re ≤ 0.0, fun a b => a.re > b.re⟩
 
+/-- the exact zero test of the code (`P == 0`, pivot search) -/
+class IsZero (K : Type) where
+  isZero : K → Bool
+export IsZero (isZero)
+
+instance : IsZero CRat := ⟨fun z => z.re == 0 && z.im == 0⟩
+instance : IsZero CFloat := ⟨fun z => z.re == 0.0 && z.im == 0.0⟩
+
 end SpecVerif
